@@ -3,7 +3,7 @@
  *
  * cfg: kind (0 cds_list, 1 cds_hlist)  freemode (0 free removed nodes at the end, 1 synchronize_rcu()+free right after the removal, 2 call_rcu)
  * Updates are mutually excluded by one mutex (any thread may update); traversals run inside read-side critical sections.
- *   add | addt            cds_list_add_rcu / cds_list_add_tail_rcu (hlist: cds_hlist_add_head_rcu for both) of a fresh, fully initialised node
+ *   add | addt            cds_list_add_rcu / cds_list_add_tail_rcu (hlist: cds_hlist_add_head_rcu for both) of a fresh node whose payload is initialised and whose link fields hold stale pointers (to an object no traversal may reach)
  *   del i                 cds_list_del_rcu / cds_hlist_del_rcu of the (i mod length)-th node
  *   repl i                cds_list_replace_rcu of the (i mod length)-th node by a fresh node (hlist: del)
  *   trav v                one traversal inside a section; v selects the iterator macro (list: 0 for_each_rcu, 1 for_each_entry_rcu;
@@ -49,6 +49,7 @@ struct lnode {
 	unsigned long id, chk;
 };
 
+static struct lnode stale_target;
 static CDS_LIST_HEAD(lhead);
 static struct cds_hlist_head hhead;
 static pthread_mutex_t upd_lock = PTHREAD_MUTEX_INITIALIZER;
@@ -148,6 +149,9 @@ static struct lnode *mk_node(int id)
 {
 	struct lnode *n = malloc(sizeof *n);
 	n->id = (unsigned long)id; n->chk = ~(unsigned long)id;
+	/* the add functions take an uninitialised link field (recycled memory, or a node re-inserted after a removal and a grace period): whatever
+	 * it holds must never become reachable; it points at a static object that no traversal may ever visit */
+	n->l.next = n->l.prev = &stale_target.l; n->h.next = n->h.prev = &stale_target.h;
 	set_node(id, n);
 	return n;
 }
